@@ -1,6 +1,6 @@
+import datetime
 import re
 
-import dateutil.parser
 from tlz.dicttoolz import merge
 from tlz.functoolz import curry
 from tlz.functoolz import identity as passthrough
@@ -21,7 +21,7 @@ product_id_re = re.compile(
     (?P<observation_direction>[LR])
     (?P<processing_level>1\.0|1\.1|1\.5|3\.1)
     (?P<processing_option>[GR_])
-    (?P<map_projection>[UL_])
+    (?P<map_projection>[UPML_])
     (?P<orbit_direction>[AD])
     """
 )
@@ -84,6 +84,11 @@ def lookup(mapping, code):
     return value
 
 
+def decode_date(date):
+    # the ids contain the date as `yymmdd`
+    return datetime.datetime.strptime(date, "%y%m%d")
+
+
 translations = {
     "observation_mode": curry(lookup, observation_modes),
     "observation_direction": curry(lookup, observation_directions),
@@ -91,7 +96,7 @@ translations = {
     "processing_option": curry(lookup, processing_options),
     "map_projection": curry(lookup, map_projections),
     "orbit_direction": curry(lookup, orbit_directions),
-    "date": curry(dateutil.parser.parse, yearfirst=True, dayfirst=False),
+    "date": decode_date,
     "mission_name": passthrough,
     "orbit_accumulation": passthrough,
     "scene_frame": passthrough,
@@ -101,7 +106,7 @@ translations = {
 
 
 def decode_scene_id(scene_id):
-    match = scene_id_re.match(scene_id)
+    match = scene_id_re.fullmatch(scene_id)
     if match is None:
         raise ValueError(f"invalid scene id: {scene_id}")
 
